@@ -65,7 +65,7 @@ CLAIMED = {
     "C12": dict(
         technique="static analysis: per-dialect FIRST/LAST/adjacency fixpoint over the serialised grammar graph carrying layout spacing classes (own type, outermost edge ancestor, spacing_within of the immediate common parent; allow_gaps=False junctions excluded) x the default layout configuration x the dialect's ordered lexer table evaluated (regex module, first-match-wins) on concatenations of the tables' own token texts; CFG/def-use conformance of the respacing and lexer code to that model",
         text="Decides (partial claim), exhaustively for 28 dialects, that every pair of fixed-text tokens (and every pair of keywords) which the grammar lets follow each other and the DEFAULT layout configuration asks to touch is read by the dialect's lexer table as the same two tokens once joined; and that the reflow code deletes inline whitespace only under touch-and-not-any, derives constraints from prev.spacing_after / next.spacing_before / spacing_within of the immediate common parent, never strips a newline next to a comment, and that the lexer is first-match-wins with DOTALL; and (R12d) that every text the dialect's naked-identifier pattern admits -- i.e. every identifier RF06 may unquote -- is read by the lexer table as one word-like token (generated candidates up to length 3 plus symbol and non-ASCII probes).",
-        note="No SQL is lexed/parsed/linted through sqlfluff: the dialects' declared pattern strings are applied to strings built from the tables themselves. Does not decide non-default configurations, three-token effects, touch pairs with a variable-text side (counted: 8 409), rules that build text (CV10, ST08, CP/CV rewrites), rebreak/reindent, fix_even_unparsable. 180 known findings: 17 glued pairs x the dialects they occur in (LT01 glues '- -' into a comment, '~ ~', ': :', ': ::', ': :=', '? ::', '@ @', '~ *', the mysql '~' terminator family, exasol dots, oracle MULTISET UNION, postgres VARIADIC ARRAY) and 7 classes of identifiers that RF06 unquotes although the bare text is not one word token (R12d: '"1E5"' becomes a number, oracle digit/underscore starts, Unicode case-fold letters). " + TRUST,
+        note="No SQL is lexed/parsed/linted through sqlfluff: the dialects' declared pattern strings are applied to strings built from the tables themselves. Does not decide non-default configurations, three-token effects, touch pairs with a variable-text side (counted: 8 409), rules that build text (CV10, ST08, CP/CV rewrites), rebreak/reindent, fix_even_unparsable. 180 known findings: 17 glued pairs x the dialects they occur in (LT01 glues '- -' into a comment, '~ ~', ': :', ': ::', ': :=', '? ::', '@ @', '~ *', the mysql '~' terminator family, exasol dots, oracle MULTISET UNION, postgres VARIADIC ARRAY) and 7 classes of identifiers that RF06 unquotes although the bare text is not one word token (R12d: a quoted 1E5 becomes a number, oracle digit/underscore starts, Unicode case-fold letters). " + TRUST,
         design_ref="DESIGN.md §9.8",
     ),
     "C13": dict(
